@@ -55,6 +55,15 @@ func vIvfProbeSets(cd []float32, p int) [][]int {
 		}
 	}
 	need := p - len(must)
+	// many tied centroids (degenerate training sets with many clusters): the number of
+	// valid probe sets is binomial; beyond 200 the query is not judged (counted by the caller)
+	comb := 1.0
+	for i := 0; i < need; i++ {
+		comb = comb * float64(len(opt)-i) / float64(i+1)
+	}
+	if comb > 200 {
+		return nil
+	}
 	var out [][]int
 	var rec func(start int, cur []int)
 	rec = func(start int, cur []int) {
@@ -151,7 +160,12 @@ func vC13Hook(s *vKindSys, h []string) {
 						ok := false
 						msgs := ""
 						boundary := false
-						for _, set := range vIvfProbeSets(cd, p) {
+						sets := vIvfProbeSets(cd, p)
+						if sets == nil {
+							s.c.Extra["queries_skipped_too_many_tied_centroids"]++
+							continue
+						}
+						for _, set := range sets {
 							in := map[int]bool{}
 							for _, li := range set {
 								in[li] = true
@@ -305,9 +319,18 @@ func init() {
 				}
 			}
 			// large instances (hundreds to thousands of vectors, k up to n)
-			for _, cfg := range []vVecCfg{{Kind: "ivf", Metric: Euclidean, Dim: 2, NList: 4, Train: 2}, {Kind: "ivf", Metric: Cosine, Dim: 3, NList: 3, Train: 2}, {Kind: "ivf", Metric: L2Squared, Dim: 3, NList: 5, Train: 2}} {
+			for _, cfg := range []vVecCfg{{Kind: "ivf", Metric: Euclidean, Dim: 2, NList: 4, Train: 2}, {Kind: "ivf", Metric: Cosine, Dim: 3, NList: 3, Train: 2}, {Kind: "ivf", Metric: L2Squared, Dim: 3, NList: 5, Train: 2},
+				// many clusters (probe selection among 16 .. 40 centroids)
+				{Kind: "ivf", Metric: Euclidean, Dim: 1, NList: 16, Train: -4}, {Kind: "ivf", Metric: L2Squared, Dim: 2, NList: 20, Train: -4}, {Kind: "ivf", Metric: Cosine, Dim: 3, NList: 24, Train: -4}, {Kind: "ivf", Metric: Euclidean, Dim: 2, NList: 40, Train: -4}} {
 				cfg := cfg
-				sh = append(sh, vShard{Name: "large/" + strings.ReplaceAll(cfg.String(), " ", ","), Run: func(c *vCtx) { vKindLarge(c, cfg, vLargeSizes(tier), vC13Hook) }})
+				sizes := vLargeSizes(tier)
+				if cfg.NList >= 16 {
+					sizes = []int{70, 200} // the hook tries every p in 1..nlist
+					if tier == "thorough" {
+						sizes = []int{70, 260, 700}
+					}
+				}
+				sh = append(sh, vShard{Name: "large/" + strings.ReplaceAll(cfg.String(), " ", ","), Run: func(c *vCtx) { vKindLarge(c, cfg, sizes, vC13Hook) }})
 			}
 			return sh
 		},
